@@ -83,6 +83,7 @@ func runC05(c *core.Ctx) {
 	c05TypeGuard(c)
 	c05Reflect(c)
 	c05Ticker(c)
+	c05ArgFlow(c)
 	c05ProbeRules(c)
 	if root := c.P.Pkg(""); root != nil {
 		c05UdfOpenState(c, root)
